@@ -11,3 +11,19 @@ package k256
 //@   ensures len(scalars) == len(points) ==> err == nil && result != nil
 //@   loop range(points)
 //@     invariant len(pts) == len(points) && len(scs) == len(scalars)
+
+// ---------------------------------------------------------------- point decoders (C13)
+// Format checks and "accepted => valid element": a compressed encoding is accepted only with length 33 and
+// tag 2 or 3; an uncompressed one only with length 65 and tag 4; the "this should never happen" panic is
+// unreachable (a point just set from an affine x has Z == 1).
+//@ func (*Curve).FromCompressed
+//@   property C13
+//@   bind F ringint, FP ringptr, Fp ringint, *Fp ringptr, C curveparams
+//@   nopanic
+//@   ensures err == nil ==> len(input) == compressedPointBytes && (input[0] == 2 || input[0] == 3)
+
+//@ func (*Curve).FromUncompressed
+//@   property C13
+//@   bind F ringint, FP ringptr, Fp ringint, *Fp ringptr, C curveparams
+//@   nopanic
+//@   ensures err == nil ==> len(input) == 65 && input[0] == 4
